@@ -1,18 +1,20 @@
 #!/bin/bash
 # usage: tools/mkregress.sh <fix-commit> <property>
-# Reverts one fix: commit of /repo in the working tree (transiently), runs the property's quick check with the
-# replay directory set to /verif/regress, and restores /repo. The replay files written there become the
-# regression tier (re-executed by every later run of that check). Prints what happened.
+# Reverts one "fix:" commit of /repo in a scratch worktree of HEAD, runs the property's quick check against that copy
+# with the replay directory set to /verif/regress and removes the worktree. The replay files written there become the
+# regression tier (re-executed by every later run of that check). /repo itself is never modified.
 set -u
 c="$1"; p="$2"
-cd /repo || exit 2
-if [ -n "$(git status --porcelain)" ]; then echo "repo not clean"; exit 2; fi
-if ! git diff "$c~1" "$c" -- . ':!*_test.go' | git apply -R 2>/tmp/mkregress.err; then echo "CONFLICT $c ($p): $(head -1 /tmp/mkregress.err)"; exit 0; fi
-trap 'git -C /repo checkout -q -- . ' EXIT
+wt=$(mktemp -d /tmp/verif-reg-XXXXXX); rmdir "$wt"
+git -C /repo worktree add -q --detach "$wt" HEAD || exit 2
+trap 'git -C /repo worktree remove --force "$wt" >/dev/null 2>&1; rm -rf "$wt" "/verif/.work/alt-$(printf %s "$wt" | sha1sum | cut -c1-10)"; git -C /repo worktree prune' EXIT
+cd "$wt" || exit 2
+if ! git diff "$c~1" "$c" -- . ':!*_test.go' | git apply -R 2>"$wt.err"; then echo "CONFLICT $c ($p): $(head -1 "$wt.err")"; rm -f "$wt.err"; exit 0; fi
+rm -f "$wt.err"
 export GOFLAGS=-mod=mod GOPROXY=off GOSUMDB=off GOTOOLCHAIN=local
-if ! go build ./... 2>/tmp/mkregress.err; then echo "NOBUILD $c ($p)"; exit 0; fi
+if ! go build ./... 2>/dev/null; then echo "NOBUILD $c ($p)"; exit 0; fi
 before=$(ls /verif/regress | wc -l)
-out=$(cd /verif && VERIF_NO_EVIDENCE=1 VERIF_REPLAY_DIR=/verif/regress ./check "$p" quick 2>&1)
+out=$(cd /verif && VERIF_REPO="$wt" VERIF_NO_EVIDENCE=1 VERIF_REPLAY_DIR=/verif/regress ./check "$p" quick 2>&1)
 rc=$?
 after=$(ls /verif/regress | wc -l)
 echo "REVERTED $c ($p): rc=$rc new-regression-cases=$((after-before)) $(echo "$out" | grep -m1 'check=' | cut -c1-160)"
